@@ -940,8 +940,18 @@ func ruleParamWriters(c *Ctx, rule string) {
 						kind = w
 					}
 				}
-				if base, field, _, ok := fieldStoreAny(in); ok && base == "recv" && field == "params" {
-					kind = "reset"
+				if base, field, val, ok := fieldStoreAny(in); ok && base == "recv" && field == "params" {
+					// lazily creating the map when there is none removes nothing
+					_, fresh := val.(*ssa.MakeMap)
+					lazy := fresh && an.DominatedByEdge(in, func(b *ssa.BasicBlock, succ int) bool {
+						return edgeHas(b, succ, func(cond ssa.Value, truth bool) bool {
+							x, k, eq, okA := an.CondAtom(cond)
+							return okA && k.Value == nil && an.AP(x) == "recv.params" && eq == truth
+						})
+					})
+					if !lazy {
+						kind = "reset"
+					}
 				}
 			})
 			if kind != "" {
